@@ -662,3 +662,230 @@ def inline_new_locals(fn, ref_names, limit: int = 8, const_attrs=frozenset()) ->
     if changed:
         ast.fix_missing_locations(fn)
     return changed
+
+
+# --------------------------------------------------------------------------------------------------
+
+def _loads_locally_dominated(fn, name, skip) -> bool:
+    """Sufficient condition for "re-binding `name` anywhere in `fn` cannot be observed": every load
+    of `name` (outside nested functions and outside the nodes in `skip`) is preceded, in its own
+    statement list, by a statement that unconditionally stores `name`."""
+    ok = True
+
+    def scan(stmts):
+        nonlocal ok
+        stored = False
+        for st in stmts:
+            if isinstance(st, (ast.FunctionDef, ast.AsyncFunctionDef, ast.ClassDef)):
+                continue
+            loads = [x for x in ast.walk(st) if isinstance(x, ast.Name) and x.id == name
+                     and isinstance(x.ctx, ast.Load) and id(x) not in skip]
+            # loads inside nested blocks of this statement are judged in their own list unless the
+            # name was already stored in this list
+            if loads and not stored:
+                nested_lists = [getattr(st, f) for f in ('body', 'orelse', 'finalbody')
+                                if isinstance(getattr(st, f, None), list)]
+                if isinstance(st, ast.Try):
+                    nested_lists += [h.body for h in st.handlers]
+                header_loads = [x for x in loads if not any(
+                    any(x is y for s2 in lst for y in ast.walk(s2)) for lst in nested_lists)]
+                if header_loads:
+                    ok = False
+                for lst in nested_lists:
+                    scan(lst)
+            if isinstance(st, ast.Assign) and any(isinstance(t, ast.Name) and t.id == name for t in st.targets):
+                stored = True
+    scan(fn.body)
+    return ok
+
+
+def inline_new_closures(fn, ref_names) -> int:
+    """Undo "extract local function": a plain nested `def h(...)` at the top level of `fn` whose name
+    is not a name of the reference form, which is not recursive, not a generator, not decorated,
+    and is only ever *called* (never passed around), is substituted at its call sites
+        h(args)                     as an expression statement      (procedure)
+        x = h(args) / return h(..)  the whole right-hand side        (procedure with result)
+        ... h(args) ...             anywhere, for `return <expr>` helpers
+    Free variables of a closure are looked up at call time, which is exactly what the inlined body
+    does.  `nonlocal` declarations are dropped (the assignments then bind the caller's local, which is
+    the same variable).  A parameter is bound by `param = arg` before the body; it keeps its own name
+    when re-binding that name in the caller cannot be observed (see _loads_locally_dominated), else
+    it gets a fresh name.  Locals of the closure that clash with caller names get a suffix."""
+    changed = 0
+    for _round in range(4):
+        nested = [st for st in fn.body if isinstance(st, (ast.FunctionDef, ast.AsyncFunctionDef))
+                  and st.name not in ref_names and not st.decorator_list]
+        progress = False
+        for h in nested:
+            name = h.name
+            if any(isinstance(x, (ast.Yield, ast.YieldFrom)) for x in ast.walk(h)):
+                continue
+            if any(isinstance(x, ast.Name) and x.id == name for x in ast.walk(h)):
+                continue            # recursive
+            if h.args.vararg or h.args.kwarg:
+                continue
+            if any(isinstance(x, (ast.FunctionDef, ast.AsyncFunctionDef, ast.Global)) and x is not h
+                   for x in ast.walk(h)):
+                continue
+            nonlocals = {n for x in ast.walk(h) if isinstance(x, ast.Nonlocal) for n in x.names}
+            work = copy.deepcopy(h)
+            work.body = [s for s in work.body if not isinstance(s, ast.Nonlocal)]
+            if any(isinstance(x, ast.Nonlocal) for x in ast.walk(work)):
+                continue
+            kind, payload = _helper_kind(work)
+            if kind is None:
+                continue
+            # every mention outside the closure is the callee of a call
+            others = [x for st in fn.body if st is not h for x in ast.walk(st)]
+            callee_ids = {id(x.func) for x in others if isinstance(x, ast.Call)
+                          and isinstance(x.func, ast.Name) and x.func.id == name}
+            if any(isinstance(x, ast.Name) and x.id == name and id(x) not in callee_ids for x in others):
+                continue
+            if not callee_ids:
+                continue
+            params = _param_names(work)
+            locals_h = _stores_in(work) - set(params) - nonlocals
+            is_async = isinstance(h, ast.AsyncFunctionDef)
+            ok_all = True
+            # names of the caller before any copy of this closure is put in: the locals of one
+            # inlined copy are dead when the next copy starts (a closure's locals are unbound on entry)
+            caller_names = _names_in(ast.Module(body=[s for s in fn.body if s is not h], type_ignores=[])) \
+                | set(_param_names(fn))
+
+            def bind(call):
+                if any(isinstance(a, ast.Starred) for a in call.args) or any(k.arg is None for k in call.keywords):
+                    return None
+                a = work.args
+                posparams = [x.arg for x in a.posonlyargs + a.args]
+                if len(call.args) > len(posparams):
+                    return None
+                argmap = dict(zip(posparams, call.args))
+                for k in call.keywords:
+                    if k.arg in argmap or k.arg not in params:
+                        return None
+                    argmap[k.arg] = k.value
+                defaults = dict(zip(posparams[len(posparams) - len(a.defaults):], a.defaults)) if a.defaults else {}
+                for p_, d_ in zip([x.arg for x in a.kwonlyargs], a.kw_defaults):
+                    if d_ is not None:
+                        defaults[p_] = d_
+                for p_ in params:
+                    if p_ not in argmap:
+                        if p_ not in defaults:
+                            return None
+                        argmap[p_] = defaults[p_]
+                mapping, prelude = {}, []
+                rebound = _stores_in(work)
+                for p_, arg in argmap.items():
+                    if isinstance(arg, ast.Name) and arg.id == p_ and p_ not in rebound:
+                        continue
+                    simple = isinstance(arg, ast.Constant) or (
+                        isinstance(arg, (ast.Name, ast.Attribute)) and all(
+                            isinstance(x, (ast.Name, ast.Attribute, ast.Load)) for x in ast.walk(arg)))
+                    if simple and p_ not in rebound and not (isinstance(arg, ast.Name) and arg.id in locals_h):
+                        mapping[p_] = arg
+                        continue
+                    skip = {id(x) for x in ast.walk(call)}
+                    if p_ not in caller_names or _loads_locally_dominated(fn, p_, skip):
+                        newname = p_
+                    else:
+                        newname = f"{p_}_h"
+                        mapping[p_] = newname
+                    prelude.append(ast.Assign(targets=[ast.Name(id=newname, ctx=ast.Store())], value=arg))
+                for loc in locals_h:
+                    if loc in caller_names:
+                        mapping[loc] = f"{loc}_h"
+                return mapping, prelude
+
+            def subst(stmts, mapping):
+                return [_Subst(mapping).visit(copy.deepcopy(s)) for s in stmts]
+
+            class In(ast.NodeTransformer):
+                def visit_FunctionDef(self, node):
+                    return node if node is not fn else self.generic_visit(node)
+                visit_AsyncFunctionDef = visit_FunctionDef
+
+                def visit_Call(self, node):
+                    nonlocal ok_all
+                    self.generic_visit(node)
+                    if isinstance(node.func, ast.Name) and node.func.id == name:
+                        if kind == 'expr' and not is_async:
+                            b = bind(node)
+                            if b is not None and not b[1]:
+                                return ast.copy_location(_Subst(b[0]).visit(copy.deepcopy(payload)), node)
+                    return node
+
+                def stmts(self, lst):
+                    nonlocal ok_all
+                    out = []
+                    for st in lst:
+                        v = st.value if isinstance(st, (ast.Expr, ast.Assign, ast.Return)) else None
+                        awaited = isinstance(v, ast.Await)
+                        if awaited:
+                            v = v.value
+                        if isinstance(v, ast.Call) and isinstance(v.func, ast.Name) and v.func.id == name \
+                                and kind in ('proc', 'procret', 'tailret') and awaited == is_async \
+                                and not (isinstance(st, ast.Assign) and len(st.targets) != 1):
+                            b = bind(v)
+                            new = None
+                            if b is not None:
+                                mapping, prelude = b
+                                if kind == 'proc' and isinstance(st, ast.Expr):
+                                    new = prelude + subst(payload, mapping)
+                                elif kind == 'procret':
+                                    body, rexpr = payload
+                                    rexpr = _Subst(mapping).visit(copy.deepcopy(rexpr))
+                                    if isinstance(st, ast.Assign):
+                                        tail = [ast.Assign(targets=st.targets, value=rexpr)]
+                                    elif isinstance(st, ast.Return):
+                                        tail = [ast.Return(value=rexpr)]
+                                    else:
+                                        tail = [] if _pure_expr(rexpr) else [ast.Expr(value=rexpr)]
+                                    new = prelude + subst(body, mapping) + tail
+                                elif kind == 'tailret':
+                                    if isinstance(st, ast.Assign):
+                                        tg = st.targets
+                                        mk = lambda val: ast.Assign(targets=copy.deepcopy(tg), value=val)
+                                    elif isinstance(st, ast.Return):
+                                        mk = lambda val: ast.Return(value=val)
+                                    else:
+                                        mk = lambda val: ast.Expr(value=val)
+                                    new = prelude + [_RetToAssign(mk).visit(b_) for b_ in subst(payload, mapping)]
+                            if new is not None:
+                                for n_ in new:
+                                    ast.copy_location(n_, st)
+                                    ast.fix_missing_locations(n_)
+                                out.extend(new or [ast.copy_location(ast.Pass(), st)])
+                                continue
+                        out.append(st)
+                    return out
+
+                def generic_visit(self, node):
+                    super().generic_visit(node)
+                    for f in ('body', 'orelse', 'finalbody'):
+                        v = getattr(node, f, None)
+                        if isinstance(v, list) and v and isinstance(v[0], ast.stmt):
+                            setattr(node, f, self.stmts(v))
+                    return node
+
+            trial = copy.deepcopy(fn)
+            # work on a copy: only a complete elimination of the closure is kept
+            h_t = next(s for s in trial.body if isinstance(s, (ast.FunctionDef, ast.AsyncFunctionDef)) and s.name == name)
+            saved_fn = fn
+            fn_backup_body = fn.body
+            # run the transformer on the real function but keep a backup to restore
+            backup = copy.deepcopy(fn.body)
+            real_h = h
+            In().visit(fn)
+            left = [x for st in fn.body if st is not real_h for x in ast.walk(st)
+                    if isinstance(x, ast.Name) and x.id == name]
+            if left:
+                fn.body = backup          # could not remove every use: undo
+                break
+            fn.body = [s for s in fn.body if s is not real_h]
+            ast.fix_missing_locations(fn)
+            changed += 1
+            progress = True
+            break
+        if not progress:
+            break
+    return changed
